@@ -118,7 +118,10 @@ def run_project(case):
                 if name not in so and name not in se:
                     return {'what': 'unparsable file %s is not named in any message' % name, 'case': case,
                             'observed': so[-800:]}, pr.returncode
-        for need in ('index.html', 'objects.inv', 'searchindex.json', 'all-documents.html'):
+        need_files = ['objects.inv', 'searchindex.json', 'all-documents.html', 'moduleIndex.html']
+        if case.get('tag') != 'all_hidden':
+            need_files.append('index.html')     # with a single HIDDEN root there is no index page to write
+        for need in need_files:
             if not (out / need).exists():
                 return {'what': 'output file %s missing' % need, 'case': case, 'observed': so[-800:]}, pr.returncode
         return None, pr.returncode
